@@ -15,4 +15,5 @@ INVARIANT FullyUnitaryCalleeAllowed
 INVARIANT OnlyDaggerRestrictsConstructs
 INVARIANT PositionIrrelevantForCalls
 INVARIANT DoubleDaggerCancels
+INVARIANT EnclosingOnlyAdds
 CHECK_DEADLOCK FALSE
